@@ -655,6 +655,22 @@ func usage() {
 	os.Exit(2)
 }
 
+// withScratch runs f with TMPDIR pointing at a directory of this invocation's
+// own, and removes it afterwards: a worker that is killed (deadline, watchdog,
+// memory guard, hang, crash) cannot clean up after itself, and thousands of
+// checks would otherwise leave as many run directories behind in /tmp.
+func withScratch(f func() int) int {
+	root, err := os.MkdirTemp("", "verifsim-")
+	if err != nil {
+		fmt.Fprintln(os.Stderr, "cannot create a scratch directory:", err)
+		return 2
+	}
+	os.Setenv("TMPDIR", root)
+	code := f()
+	os.RemoveAll(root)
+	return code
+}
+
 func main() {
 	if len(os.Args) < 2 {
 		usage()
@@ -683,14 +699,14 @@ func main() {
 				secs, _ = strconv.Atoi(os.Args[i])
 			}
 		}
-		os.Exit(check(os.Args[2], tier, runs, secs))
+		os.Exit(withScratch(func() int { return check(os.Args[2], tier, runs, secs) }))
 	case "replay":
 		if len(os.Args) < 3 {
 			usage()
 		}
-		os.Exit(replayCmd(os.Args[2]))
+		os.Exit(withScratch(func() int { return replayCmd(os.Args[2]) }))
 	case "selftest":
-		os.Exit(selftest(os.Args[2:]))
+		os.Exit(withScratch(func() int { return selftest(os.Args[2:]) }))
 	default:
 		usage()
 	}
